@@ -23,6 +23,10 @@ CFGS = {
     # fee accounting: fees accrue without a treasury, the treasury is switched on / off, FeeWithdraw of 1 / all / all+1
     "fees_q": dict(Extras='{"toggle"}', UnstakeAmts="{}", RewardAmts="{2, 5}", RcvKinds='{"self"}', Returns="{}", MaxBatches="1",
                    MaxN="9", MaxSeq="4", MaxPk="4", MaxTime="0", Principals='{"admin", "u1"}'),
+    # staked total without any LST (an admin correction): rewards are refused until somebody stakes, whose stake sweeps the
+    # ownerless total into the fees
+    "zerolst_q": dict(StartHalted="TRUE", ResumeScales='{"same", "zerolst"}', UnstakeAmts="{}", RewardAmts="{2}", RcvKinds='{"self"}', Returns="{}",
+                      MaxBatches="1", MaxN="12", MaxSeq="3", MaxPk="3", MaxTime="0", Principals='{"admin"}', Extras="{}"),
     # a fee rate above 100 %: every reward must be refused (fee exceeds the reward)
     "fee150_q": dict(FeeRate="150000", UnstakeAmts="{}", RewardAmts="{1, 2, 3}", RcvKinds='{"self"}', Returns="{}", MaxBatches="1",
                      MaxN="6", MaxSeq="3", MaxPk="3", MaxTime="0", AdminOps="FALSE", Extras="{}"),
